@@ -266,6 +266,32 @@ class Tr:
                         out.append(v)
         return out
 
+    @staticmethod
+    def only_float_conversions(stmts):
+        """every statement is  X = X.astype(float)  or
+        A, B, .. = [Q.astype(float) for Q in (A, B, ..)]"""
+        def is_astype_float(call, name):
+            return (isinstance(call, ast.Call) and isinstance(call.func, ast.Attribute) and call.func.attr == 'astype'
+                    and is_name(call.func.value, name) and len(call.args) == 1 and not call.keywords
+                    and src(call.args[0]) in ('float', 'np.float64'))
+        if not stmts:
+            return False
+        for st in stmts:
+            if not (isinstance(st, ast.Assign) and len(st.targets) == 1):
+                return False
+            t, v = st.targets[0], st.value
+            if isinstance(t, ast.Name) and is_astype_float(v, t.id):
+                continue
+            if (isinstance(t, ast.Tuple) and all(isinstance(e, ast.Name) for e in t.elts)
+                    and isinstance(v, (ast.ListComp, ast.GeneratorExp)) and len(v.generators) == 1
+                    and not v.generators[0].ifs and isinstance(v.generators[0].target, ast.Name)
+                    and is_astype_float(v.elt, v.generators[0].target.id)
+                    and isinstance(v.generators[0].iter, (ast.Tuple, ast.List))
+                    and [src(e) for e in v.generators[0].iter.elts] == [e.id for e in t.elts]):
+                continue
+            return False
+        return True
+
     def block(self, stmts, tail=None):
         """Coq expression for executing stmts; `tail` is what falling off the end
         evaluates to (None: falling off is unsupported)."""
@@ -328,6 +354,10 @@ class Tr:
                 if first is None:
                     first = t.id
             return out + '\n  ' + self.block(rest, tail)
+        if isinstance(s, ast.If) and not s.orelse and self.only_float_conversions(s.body):
+            # `if <any test>: X = X.astype(float)` -- a change of dtype is the
+            # identity on the real values the model is about
+            return self.block(rest, tail)
         if isinstance(s, ast.If):
             # if not isinstance(symmetry_axis, (list, tuple)): symmetry_axis = [symmetry_axis]
             # (the axis record of the model is the value after this normalisation)
